@@ -574,3 +574,16 @@ PROPS["C49"] = dict(
     trusted_base=MIR_TB,
     mir=True,
 )
+
+
+PROPS["C12"]["functions"].append(
+    "radix_engine::track::state_updates::TrackedSubstateValue::{get, set, take, revert_writes, into_value}, "
+    "Write::into_value (MIR->SMT, one step from every state of the per-substate read/write state machine)")
+PROPS["C12"]["bounds"] += ("; Engine M: one get / set / take / revert_writes step from every TrackedSubstateValue state "
+                           "(all six variants, both read and write sub-states, opaque symbolic values)")
+PROPS["C12"]["outside"] = ("MappedTrack::{get / set / remove substate plumbing, scan_keys, drain_substates, "
+                           "scan_sorted_substates} over real maps and database and TrackedSubstates::to_state_updates "
+                           "(map- and iterator-heavy): only the listing merge component and the per-substate state "
+                           "machine are decided")
+PROPS["C12"]["trusted_base"] = KANI_TB + MIR_TB
+PROPS["C12"]["mir"] = True
